@@ -134,7 +134,14 @@ BOUNDED = {
              'bound': 'all strings of length <= 3 over {a, b, U+017C (2 bytes), U+20AC (3 bytes), U+1F40E (4 bytes)} x all match strings of length <= 2, through parse+evaluate under catch_unwind, '
                       'against a character-sequence reference (these functions index str by byte offsets, which Verus cannot reason about)'}],
 }
-BOUNDED['C08'] = list(BOUNDED['C05'])
+BOUNDED['C05'] = BOUNDED['C05'] + [{'name': 'temporal-extremes-and-iteration-answer', 'script': 'feeltotal.py', 'args': [],
+    'functions': ['FeelIterator::run (through for / some / every)', 'temporal::get_zone_offset / compare / subtract', 'FeelYearsAndMonthsDuration / FeelDaysAndTimeDuration literals and arithmetic', 'core::time_3 / time_4 / date_3',
+                  'date and date-time arithmetic at the ends of the year range'],
+    'bound': '7699 generated expressions, each must answer (value or error) within 10 s, no panic: for / some / every over 1..3 iteration contexts of lists, ascending, descending and empty ranges; date-and-time / time values of six named zones '
+             'at every half hour around their daylight-saving transitions (non-existent and ambiguous local times included) compared, subtracted, rendered, shifted; duration literals with 1..20-digit components and the largest valid ones, '
+             'negated, added, multiplied, divided, rendered; time(h, m, s, offset) with 22 offsets up to the i32 limits; date / time / duration constructors with 14 extreme numbers; fractional and repeating-decimal time / date components'}]
+BOUNDED['C08'] = [b for b in BOUNDED['C05'] if b['name'] == 'string-search-builtins'] + [{'name': 'boolean-list-builtins', 'script': 'boolbif.py', 'args': [], 'functions': ['core::all', 'core::any'],
+    'bound': 'all / any over every list of length 0..4 from {true, false, null, 1, "a"} (list form; named form and variadic form up to length 3): 2184 evaluations against DMN 1.3 Table 75'}]
 BOUNDED['C05'] = BOUNDED['C05'] + [{'name': 'built-ins-never-panic', 'script': 'biftotal.py', 'args': [],
     'functions': ['every built-in function of feel-evaluator/src/bifs (names read from feel/src/bif.rs), positional form'],
     'bound': 'each of the 73 built-in names applied to every tuple of 0, 1 and 2 arguments from a 23-value grid (null, numbers incl. 2^64, strings incl. multi-byte, booleans, empty / null / nested lists, contexts, '
